@@ -2,10 +2,6 @@ package rapid
 
 // C05 / C01: the shrinker only moves to smaller buffers that still fail at the same site.
 
-func symSlice(name string, maxLen int) []uint64 {
-	n := choose(name+".len", maxLen+1)
-	return symWords(name, n)
-}
 
 // refShortlex is the reference order: length first, then lexicographic.
 func refShortlex(a, b []uint64) int {
